@@ -245,7 +245,7 @@ func implI(f []string) string {
 	return out
 }
 
-// ---------------------------------------------------------------- P: defect probes
+// ---------------------------------------------------------------- P: probes of heap-independent behaviour
 
 func implP(f []string) string {
 	switch f[1] {
@@ -342,7 +342,7 @@ func genC17(c *h.Ctx) {
 				ps = append(ps, strconv.Itoa(c.Rng.Intn(k+1))) // copy of any earlier runtime (siblings)
 			}
 		}
-		jobs = append(jobs, &job{r: c.Rng.Fork(), kind: 'I', depth: depth, parents: strings.Join(ps, "."), side: c.Rng.Intn(depth + 1)})
+		jobs = append(jobs, &job{r: c.Rng.Fork(), kind: 'I', depth: depth, parents: strings.Join(ps, "."), side: c.Rng.Intn(depth + 1), allowDev: c.Rng.Chance(15)})
 	}
 	ch := make(chan *job, 256)
 	var wg sync.WaitGroup
@@ -361,6 +361,7 @@ func genC17(c *h.Ctx) {
 						j.feats = g.features()
 					}
 				} else {
+					g.allowDev = j.allowDev
 					hsrc := g.history()
 					msrc := g.mutation()
 					exp := expI(hsrc, msrc)
